@@ -95,6 +95,13 @@ func C04(r *eng.Run) {
 	p.EOFWithData = r.T.Chance(sim.LFault, 1, 8)
 	p.ZeroReads = r.T.Chance(sim.LFault, 1, 8)
 	cfg.ZeroBuf = (cfg.App == AppReader || cfg.App == AppNextReader) && r.T.Chance(sim.LFault, 1, 8)
+	cfg.SkipEmpty = cfg.App == AppReader && r.T.Chance(sim.LCfg, 1, 4) // empty unfragmented messages are not read at all
+	if (cfg.App == AppReader || cfg.App == AppNextReader) && cfg.Bufio == 0 && !cfg.NoDiscard && r.T.Chance(sim.LFault, 1, 6) {
+		// One temporary read error inside the payload of a data frame; the
+		// application reads every unit to its end and retries.
+		cfg.Retry, cfg.NoDiscard = true, true
+		p.Transient = TransientIn(r, s.Frames)
+	}
 	r.Note("C04 %s side=%d seg=%d eofWithData=%v stream: %s", cfg.Name(), cfg.Side, p.SegMode, p.EOFWithData, s.Describe())
 
 	o := RunApp(r, p, cfg)
